@@ -138,5 +138,7 @@ NothingAfterTamper == [][tampered => (delivered' \o queued') = (delivered \o que
 HungUpWhenBad == (tampered /\ ~desync) => rstate \in {"hung up", "lost"}
 \* pending reads fail when the connection is lost
 NoReadLeftBehind == rstate = "lost" => reads = 0
+\* ... and the Deferred of a consumer that is still waiting for bytes fails too
+ConsumerNotLeftBehind == (ConsumerMode /\ rstate = "lost") => consumerDone # "-"
 ConsumerTruth == (consumerDone = "ok") => delivered = sent /\ Len(sent) = MaxRecords
 ====
